@@ -39,8 +39,9 @@ def bracket(est_rate, denom, eta, level, n_impl, upper, seed, B=20000):
     return out
 
 
-def run(p, cells, seed=0, enc=None, X=None, resets=()):
-    """cells: list of (y_true, y_pred) in {0,1}^2; resets: positions before which the user calls reset()"""
+def run(p, cells, seed=0, enc=None, X=None, resets=(), bads=()):
+    """cells: list of (y_true, y_pred) in {0,1}^2; resets: positions before which the user calls reset(); bads: positions before
+    which update is called with two labels at once (must be refused and leave no trace)"""
     det = make(p)
     ev = []
     conf = {"tn": 1, "fn": 1, "fp": 1, "tp": 1}
@@ -51,6 +52,17 @@ def run(p, cells, seed=0, enc=None, X=None, resets=()):
             conf = {"tn": 1, "fn": 1, "fp": 1, "tp": 1}
             ev.append({"op": "reset", "total": int(det.total_samples), "since": int(det.samples_since_reset), "state": st(det.drift_state),
                        "recs": recs(list(det.retraining_recs)), "nstates": len(det.all_drift_states)})
+        if t in bads:
+            raised = "None"
+            np.random.seed((seed * 7919 + t) % (2 ** 32))
+            try:
+                det.update([1, 0], [1, 1])
+            except Exception as ex:  # noqa
+                raised = type(ex).__name__
+            if det.drift_state != "drift" and int(det.samples_since_reset) == 0:
+                conf = {"tn": 1, "fn": 1, "fp": 1, "tp": 1}
+            ev.append({"op": "bad", "raised": raised, "total": int(det.total_samples), "since": int(det.samples_since_reset),
+                       "state": st(det.drift_state), "recs": recs(list(det.retraining_recs)), "nstates": len(det.all_drift_states)})
         if det.drift_state == "drift":
             conf = {"tn": 1, "fn": 1, "fp": 1, "tp": 1}
         np.random.seed((seed * 7919 + t) % (2 ** 32))
@@ -93,7 +105,7 @@ def run(p, cells, seed=0, enc=None, X=None, resets=()):
             pass
         ev.append(e)
     cfg = {"eta": num(p["eta"]), "burn": p["burn"], "sub": p["sub"], "rv": p["rv"], "tracked": list(p["tracked"])}
-    return {"cfg": cfg, "ev": ev, "params": p, "cells": [list(c) for c in cells], "seed": seed, "resets": list(resets)}
+    return {"cfg": cfg, "ev": ev, "params": p, "cells": [list(c) for c in cells], "seed": seed, "resets": list(resets), "bads": list(bads)}
 
 
 def params(rng, small=False):
